@@ -514,3 +514,44 @@ func ZZ_C04_labelAfterRoleHistory() {
 	nondet.Observe("labelled", labelled())
 	nondet.Reach("C04.history.rollback-to-former-active", wasActive && wasLeftover && !labelled())
 }
+
+// ZZ_C04_labelsDespiteStaleCanaryNode: "Pods of the canary replica set on canary nodes carry the
+// canary label during the canary" — on every canary node, also when another entry of
+// status.canary.nodes is stale (the node was deleted, or got a taint the template does not
+// tolerate, after it was selected; the list is only re-selected when its length changes) and
+// whatever the order of the list.  Three nodes, canary nodes {stale one, node1, node2} in an
+// arbitrary rotation; node1 and node2 run canary pods that are not labelled yet (just created).
+// After one sync of the canary replica set both carry the label.
+func ZZ_C04_labelsDespiteStaleCanaryNode() {
+	c, ds, rsNew, rsOld := zzStore(3)
+	ds.Spec.Strategy.Canary = &datadoghqv1alpha1.ExtendedDaemonSetSpecStrategyCanary{}
+	datadoghqv1alpha1.DefaultExtendedDaemonSetSpec(&ds.Spec, datadoghqv1alpha1.ExtendedDaemonSetSpecStrategyCanaryValidationModeAuto)
+	ds.Status.ActiveReplicaSet = rsOld.Name
+	stale := zzNodeName(0)
+	switch nondet.String("staleEntry", "tainted", "deleted", "none") {
+	case "tainted":
+		c.Nodes[0].Spec.Taints = []corev1.Taint{{Key: "dedicated", Value: "db", Effect: corev1.TaintEffectNoSchedule}}
+	case "deleted":
+		stale = "node-gone"
+	}
+	list := []string{stale, zzNodeName(1), zzNodeName(2)}
+	switch nondet.Int("rotation", 0, 2) {
+	case 1:
+		list = []string{zzNodeName(1), stale, zzNodeName(2)}
+	case 2:
+		list = []string{zzNodeName(1), zzNodeName(2), stale}
+	}
+	ds.Status.Canary = &datadoghqv1alpha1.ExtendedDaemonSetStatusCanary{ReplicaSet: rsNew.Name, Nodes: list}
+	ds.Status.State = datadoghqv1alpha1.ExtendedDaemonSetStatusStateCanary
+	c.Pods = append(c.Pods,
+		zzPod("canary-1", zzNodeName(1), zzRSName, zzHashNew, 0, corev1.PodRunning, true, nondet.Base().Add(-time.Minute)),
+		zzPod("canary-2", zzNodeName(2), zzRSName, zzHashNew, 0, corev1.PodRunning, true, nondet.Base().Add(-time.Minute)))
+	_, _ = zzReconcile(zzReconciler(c, false), zzNS, rsNew.Name)
+	for _, p := range c.Pods {
+		if p.Name == "canary-1" || p.Name == "canary-2" {
+			nondet.Assert("C04.stale.every-canary-pod-labelled", p.Labels[datadoghqv1alpha1.ExtendedDaemonSetReplicaSetCanaryLabelKey] == datadoghqv1alpha1.ExtendedDaemonSetReplicaSetCanaryLabelValue)
+		}
+	}
+	nondet.Assert("C04.stale.no-pod-on-stale-node", c.Count("create", "Pod") == 0 || stale == zzNodeName(0) && len(c.Nodes[0].Spec.Taints) == 0)
+	nondet.Reach("C04.stale.stale-entry-first", list[0] == "node-gone")
+}
